@@ -14,6 +14,20 @@ func init() {
 }
 
 func registerVxFS(e *Engine) {
+	// byte-range locks on the restored database: single process, always granted
+	e.reg("github.com/benbjohnson/litestream/internal.setFcntlLock", func(ex *Exec, fr *frame, args []Value) Value {
+		return iface{}
+	})
+	// randomness: fresh symbolic bytes
+	randRead := func(ex *Exec, fr *frame, args []Value) Value {
+		p := args[0].([]Value)
+		for i := range p {
+			p[i] = ex.NewInput("rand", 8)
+		}
+		return tuple{K(64, uint64(len(p))), iface{}}
+	}
+	e.reg("crypto/rand.Read", randRead)
+	e.reg("math/rand.Read", randRead)
 	e.reg(vxPath+".TempDir", func(ex *Exec, fr *frame, args []Value) Value {
 		st := ex.fs()
 		ex.ensureDirs(st, "/vx")
